@@ -118,9 +118,8 @@ with shape_fields : str -> egroups -> jmap -> Prop :=
 | SfSkip otn g gs m : shape_fields otn gs m -> shape_fields otn (g :: gs) m
 | SfCons otn key f0 rest gs v m fdef :
     td_type_field s otn (rs_name f0) = Some fdef ->
-    (* the value conforms to the type of the selection (`field.ty()`), or is a null allowed by the type of the field
-       on the object type (`field_def.ty`) *)
-    (shape (rs_dty f0) (f0 :: rest) v \/ (v = JNull /\ is_non_null (fd_ty fdef) = false)) ->
+    (* the value conforms to the type of the field on the object type (`field_def.ty`) *)
+    shape (fd_ty fdef) (f0 :: rest) v ->
     shape_fields otn gs m ->
     shape_fields otn ((key, (f0, rest)) :: gs) ((key, v) :: m).
 
@@ -185,7 +184,7 @@ Definition P_list (fuel : nat) : Prop :=
     errs_ok rpath st st' res /\ (forall v, res = XrOk (Some v) -> shape cx t (f0 :: rest) v).
 
 Definition field_value_ok (fdef : fielddef) (f0 : rsel) (rest : list rsel) (v : json) : Prop :=
-  shape cx (rs_dty f0) (f0 :: rest) v \/ (v = JNull /\ is_non_null (fd_ty fdef) = false).
+  shape cx (fd_ty fdef) (f0 :: rest) v.
 
 Definition P_field (fuel : nat) : Prop :=
   forall rpath otn oimpls oid fdef f0 rest st log res st' log',
@@ -324,7 +323,7 @@ Proof.
       match type of H with
       | run_sync w (ebind ?m ?f st) log = _ =>
           assert (Hm : forall r st1 log1, run_sync w (m st) log = (r, st1, log1) ->
-                    errs_ok rpath st st1 r /\ (forall v, r = XrOk (Some v) -> shape cx (rs_dty f0) (f0 :: rest) v))
+                    errs_ok rpath st st1 r /\ (forall v, r = XrOk (Some v) -> shape cx (fd_ty fdef) (f0 :: rest) v))
       end.
       { intros r st1 log1 E. destruct (streq (rs_name f0) td_typename).
         - apply (IHc _ _ _ _ _ _ _ _ _ _ E).
@@ -341,14 +340,14 @@ Proof.
       end.
       rewrite rs_ret in H. injection H as <- <- <-. unfold ex_try_nullify.
       destruct r as [[v|]| |].
-      * split; [assumption|]. intros v' [= <-]. left. now apply Hv1.
+      * split; [assumption|]. intros v' [= <-]. unfold field_value_ok. now apply Hv1.
       * split; [assumption|discriminate].
       * destruct (is_non_null (fd_ty fdef)) eqn:En.
         -- split; [assumption|discriminate].
-        -- split; [eapply errs_ok_retag; [|exact He1]; discriminate|]. intros v [= <-]. right. now split.
+        -- split; [eapply errs_ok_retag; [|exact He1]; discriminate|]. intros v [= <-]. unfold field_value_ok. now apply ShNull.
       * split; [assumption|discriminate].
     + rewrite rs_bind, rs_push, rs_ret in H. injection H as <- <- <-. split; [apply errs_ok_push|].
-      destruct (is_non_null (fd_ty fdef)) eqn:En; [discriminate|]. intros v [= <-]. right. now split.
+      destruct (is_non_null (fd_ty fdef)) eqn:En; [discriminate|]. intros v [= <-]. unfold field_value_ok. now apply ShNull.
     + rewrite rs_ret in H. injection H as <- <- <-. split; [apply errs_ok_refl; discriminate|discriminate].
   - (* complete_value *)
     intros rpath t r f0 rest st log res st' log' H. cbn [ex_complete] in H.
